@@ -21,7 +21,7 @@ MUTANTS = [
     ("dedup_ignores_stack", "libyara/re.c", "        if (fiber->stack[i] != target_fiber->stack[i])", "        if (0 && fiber->stack[i] != target_fiber->stack[i])", "C03"),
     ("atoms_trim_shift", "libyara/atoms.c", "  if (trim_left == 0)\n    return 0;\n\n  // Shift bytes", "  if (trim_left <= 1)\n    return 0;\n\n  // Shift bytes", "C02"),
     ("wide_high_byte_unchecked", "libyara/re.c", "        (character_size == 2 && *(input + 1) != 0)) \\", "        (character_size == 3 && *(input + 1) != 0)) \\", "C03"),
-    ("scan_mode_last_start", "libyara/re.c", "    if (flags & RE_FLAGS_SCAN && bytes_matched < max_bytes_matched)", "    if (flags & RE_FLAGS_SCAN && bytes_matched + 1 < max_bytes_matched)", "C03"),
+    ("scan_mode_last_start", "libyara/re.c", "    if (flags & RE_FLAGS_SCAN && bytes_matched <= max_bytes_matched)", "    if (flags & RE_FLAGS_SCAN && bytes_matched + 1 < max_bytes_matched)", "C03"),
     ("class_D_bitmap", "libyara/re_lexer.l", "      LEX_ENV->re_class.bitmap[i] |= 0xFC;", "      LEX_ENV->re_class.bitmap[i] |= 0xFE;", "C03"),
     ("hex_jump_end_minus_one", "libyara/hex_grammar.y", "        $$->start = (int) $2;\n        $$->end = (int) $4;", "        $$->start = (int) $2;\n        $$->end = (int) $4 - ($4 > 3 ? 1 : 0);", "C02"),
     ("split_a_b_swapped_plus", "libyara/re.c", "        re_node->greedy ? RE_OPCODE_SPLIT_B : RE_OPCODE_SPLIT_A,\n        jmp_offset,", "        re_node->greedy ? RE_OPCODE_SPLIT_A : RE_OPCODE_SPLIT_B,\n        jmp_offset,", "-"),
@@ -31,7 +31,7 @@ MUTANTS = [
     ("literal_nocase_table", "libyara/re.c", "          match = yr_lowercase[*input] == yr_lowercase[*(ip + 1)];", "          match = yr_lowercase[*input] == *(ip + 1);", "C03"),
     ("atoms_choose_ignores_shift", "libyara/atoms.c", "      item->forward_code_ref = node->re_nodes[shift]->forward_code_ref;", "      item->forward_code_ref = node->re_nodes[0]->forward_code_ref;", "C02"),
     ("hex_not_byte_lexer", "libyara/hex_lexer.l", "\\~\\?{hexdigit}  {\n\n  yytext[1] = '0'; // replace ? by 0\n  yylval->integer = xtoi(&(yytext[1])) | 0x0F00 ;", "\\~\\?{hexdigit}  {\n\n  yytext[1] = '0'; // replace ? by 0\n  yylval->integer = xtoi(&(yytext[1])) | 0xF000 ;", "C02"),
-    ("chain_prune_too_eager", "libyara/scan.c", "      if (ending_offset + matching_string->chain_gap_max < lowest_offset)", "      if (ending_offset + matching_string->chain_gap_max <= lowest_offset)", "C02"),
+    ("chain_prune_too_eager", "libyara/scan.c", "      if (ending_offset + matching_string->chain_gap_max + YR_RE_SCAN_LIMIT +\n              YR_MAX_ATOM_LENGTH <\n          lowest_offset)", "      if (ending_offset + matching_string->chain_gap_max + YR_MAX_ATOM_LENGTH <\n          lowest_offset)", "C02"),
     ("update_chain_len_gap", "libyara/scan.c", "    if (ending_offset + string->chain_gap_max >= match_to_update->offset &&\n        ending_offset + string->chain_gap_min <= match_to_update->offset)", "    if (ending_offset + string->chain_gap_max > match_to_update->offset &&\n        ending_offset + string->chain_gap_min <= match_to_update->offset)", "C02"),
     ("re_range_any_min", "libyara/re.c", "      if (fiber->rc < repeat_any_args->min)\n      {", "      if (fiber->rc + 1 < repeat_any_args->min)\n      {", "C02"),
     ("fast_backward_start", "libyara/re.c", "  if (flags & RE_FLAGS_BACKWARDS)\n    first->input--;", "  if (flags & RE_FLAGS_BACKWARDS)\n    first->input -= (input_backwards_size > 3 ? 1 : 0) + (input_backwards_size == 7);", "C02"),
@@ -41,6 +41,12 @@ MUTANTS = [
     ("alt_jump_offset", "libyara/re.c", "    jmp_offset = (int16_t) (bookmark_1 - jmp_instruction_ref.offset);\n\n    // Update offset for jmp instruction.", "    jmp_offset = (int16_t) (bookmark_1 - jmp_instruction_ref.offset);\n    if (flags & EMIT_BACKWARDS) jmp_offset += 0; else if (jmp_offset > 12) jmp_offset -= 2;\n\n    // Update offset for jmp instruction.", "C03"),
     ("verify_forward_size", "libyara/scan.c", "        data + offset,\n        data_size - offset,\n        offset,\n        flags,\n        NULL,\n        NULL,\n        &callback_args.forward_matches));\n\n    if (callback_args.forward_matches != -1 && ac_match->backward_code != NULL)\n    {\n      FAIL_ON_ERROR(exec(\n          context,\n          ac_match->backward_code,\n          data + offset,\n          data_size - offset,\n          offset,\n          flags | RE_FLAGS_BACKWARDS | RE_FLAGS_EXHAUSTIVE,",
      "        data + offset,\n        data_size - offset - (data_size - offset > 9 ? 1 : 0),\n        offset,\n        flags,\n        NULL,\n        NULL,\n        &callback_args.forward_matches));\n\n    if (callback_args.forward_matches != -1 && ac_match->backward_code != NULL)\n    {\n      FAIL_ON_ERROR(exec(\n          context,\n          ac_match->backward_code,\n          data + offset,\n          data_size - offset,\n          offset,\n          flags | RE_FLAGS_BACKWARDS | RE_FLAGS_EXHAUSTIVE,", "C02"),
+    # revert-the-fix mutants: the five fixes of the findings of these checks, each reverted alone (file = REVERT, old = commit)
+    ("revert_chain_prune_window", "REVERT", "81c4ffe", "", "C02"),
+    ("revert_wide_fullword_flag", "REVERT", "4ff4235", "", "C03"),
+    ("revert_scan_mode_le", "REVERT", "eeb23a8", "", "C03"),
+    ("revert_continue_reread", "REVERT", "b5b43d7", "", "C03"),
+    ("revert_plus_backjump", "REVERT", "52e6c09", "", "C03"),
     ("anchor_start_backward", "libyara/re.c", "          kill = input_backwards_size > (size_t) bytes_matched;", "          kill = input_backwards_size >= (size_t) bytes_matched;", "C03"),
 ]
 
@@ -54,10 +60,16 @@ def main():
             continue
         p = os.path.join(repo, f)
         subprocess.run(["git", "checkout", "-q", "--", "."], cwd=repo)
-        s = open(p).read()
-        if s.count(old) != 1:
-            res.append((name, "EDIT-NOT-APPLICABLE (%d occurrences)" % s.count(old))); print(res[-1], flush=True); continue
-        open(p, "w").write(s.replace(old, new))
+        if f == "REVERT":
+            d = subprocess.run(["git", "show", "--format=", old], cwd=repo, stdout=subprocess.PIPE).stdout
+            a = subprocess.run(["git", "apply", "-R", "-"], cwd=repo, input=d)
+            if a.returncode != 0:
+                res.append((name, "EDIT-NOT-APPLICABLE (revert of %s does not apply)" % old)); print(res[-1], flush=True); continue
+        else:
+            s = open(p).read()
+            if s.count(old) != 1:
+                res.append((name, "EDIT-NOT-APPLICABLE (%d occurrences)" % s.count(old))); print(res[-1], flush=True); continue
+            open(p, "w").write(s.replace(old, new))
         out = {}
         for pid in ("C02", "C03"):
             t = time.time()
@@ -65,13 +77,14 @@ def main():
                                stdout=subprocess.PIPE, stderr=subprocess.STDOUT, text=True)
             lines = [l for l in r.stdout.splitlines() if l.startswith(("VIOLATION", "OK", "CHECK-ERROR"))]
             kinds = set()
+            concrete = sum(1 for l in lines if l.startswith("VIOLATION") and "no-failing-input-found" not in l)
             for l in lines:
                 if l.startswith("VIOLATION") and "replay=" in l:
                     try:
                         kinds.add(json.load(open(l.split("replay=")[1].split()[0]))["kind"][:60])
                     except Exception:
                         pass
-            out[pid] = ("ALARM" if r.returncode == 1 else "ok" if r.returncode == 0 else "ERROR rc=%d" % r.returncode, sorted(kinds), round(time.time() - t))
+            out[pid] = ("ALARM" if r.returncode == 1 else "ok" if r.returncode == 0 else "ERROR rc=%d" % r.returncode, sorted(kinds), "concrete=%d" % concrete, round(time.time() - t))
         res.append((name, prop, out)); print(res[-1], flush=True)
     subprocess.run(["git", "checkout", "-q", "--", "."], cwd=repo)
     json.dump(res, open(os.path.join(wt, "out", "seeded_re.json"), "w"), indent=1)
